@@ -2,7 +2,7 @@
 
 stdin : {"cases": [case, ...]}
         case = {"shape": str, "x": bool, "entry": "parse_args|parse_object|parse_string|parse_env|parse_path",
-                "input": ..., "files": {relative name: text}, "dcf": text or null, "stdin": "none" or absent, "nested_x": "same|default|opposite" or absent,
+                "input": ..., "files": {relative name: text}, "dcf": text or null, "stdin": "none" or absent, "nested_x": "same|default|opposite" or absent, "cwd": "deleted" or absent,
                 "history": [{"entry": ..., "input": ...}, ...] calls made before on the same parser object (outcomes swallowed)}
 stdout: last line {"obs": [...]}; one observation per case:
         {"k": "ret"} | {"k": "exit", "code": c, "usage": bool, "frames": [...]} |
@@ -273,6 +273,8 @@ def run_case(case, base):
         f.write(b"\xff\xfe\x00a: 1\n")
     with open("empty.yaml", "w") as f:
         f.write("")
+    with open("list.yaml", "w") as f:
+        f.write("- 1\n- 2\n")
     os.mkdir("d")
     for name, text in (case.get("files") or {}).items():
         with open(name, "wb") as f:
@@ -302,6 +304,8 @@ def run_case(case, base):
                         call(parser, h["entry"], decode(h["input"]) if h["entry"] == "parse_object" else h["input"])
                     except BaseException:  # noqa: B036
                         pass
+                if case.get("cwd") == "deleted":
+                    shutil.rmtree(work, ignore_errors=True)   # the process keeps running in a directory that no longer exists
                 signal.alarm(LIMIT)
                 out.seek(0), out.truncate(), err.seek(0), err.truncate()
                 call(parser, case["entry"], inp)
